@@ -738,7 +738,9 @@ class Machine:
             outs = self.run_cfg(k, ins, env, frame)
         else:
             raise VMUnsupported(f"node kind {type(op).__name__}")
-        if len(outs) != S.nout[k]:
+        # (hugr-py may under-report the port count of a container whose outputs were set after the
+        #  node was created; surplus values are harmless, missing ones are not)
+        if len(outs) < S.nout[k]:
             raise VMInvariant(f"node {k} ({nm or type(op).__name__}) produced {len(outs)} values, has {S.nout[k]} ports")
         for i, v in enumerate(outs):
             env[(k, i)] = v
